@@ -145,6 +145,7 @@ class Sched:
         self.point_log = []
         self.user = {}               # free slot for harness data
         self._nonblock = 0
+        self.time_preempt = False    # offer "time passes while a runnable thread is descheduled"
         self.nopreempt = frozenset()   # op kinds that are steps but no decisions
 
     def nonblocking(self):
@@ -376,16 +377,30 @@ class Sched:
         else:
             order = en
             running_enabled = False
-        if len(order) > 1:
+        # a runnable thread may stay descheduled while (virtual) time passes: offer
+        # "let the clock run to the next wake-up first" as one more alternative
+        late = None
+        if self.time_preempt and running_enabled:
+            sl = [t for t in self.threads if t.state == READY and t.wake is not None
+                  and t.wake > self.now and t not in en]
+            if sl:
+                late = min(sl, key=lambda t: (t.wake, t.id))
+        n_opts = len(order) + (1 if late is not None else 0)
+        if n_opts > 1:
             inj = ()
             if self._has_prio:
                 inj = tuple(i for i, t in enumerate(order)
                             if t.prio and (t.op_kind == 'start' or t.op_kind.startswith('inject.')))
-            idx = self._decide(len(order), 'sched', running_enabled,
+            idx = self._decide(n_opts, 'sched', running_enabled,
                                me.op_kind if me is not None else 'exit', inj)
         else:
             idx = 0
-        nxt = order[idx]
+        if idx == len(order):
+            self.user['time_preempted'] = True
+            self.now = late.wake
+            nxt = late
+        else:
+            nxt = order[idx]
         if nxt is me:
             return
         self.current = nxt
